@@ -121,7 +121,7 @@ def ccm_class(nxt='all', cfg='s1', shape=1):
     f = {'block_size': 'int', 'nonce': 'bytes', '_factory': FACTORY, '_key': 'bytes', '_mac_len': 'int', '_cipher_params': NO_PARAMS,
          '_mac': 'obj:native.CBC', '_t': 'bytes|none', '_next': ('const', list(NEXTS[nxt])),
          '_cumul_assoc_len': 'int', '_cumul_msg_len': 'int', '_cipher': 'obj:native.CTR', '_s_0': 'bytes'}
-    if cfg in PARKED:
+    if cfg in PARKED or cfg == 'dd':       # 'dd': both lengths known but the MAC not started yet (entry state of _start_mac only)
         f.update({'_assoc_len': 'none' if cfg[0] == 'n' else 'int', '_msg_len': 'none' if cfg[1] == 'n' else 'int',
                   '_cache': 'list(%s)' % ','.join(['bytes'] * shape), '_mac_tag': 'none', '_mac_status': ('const', 0)})
     else:
@@ -138,7 +138,7 @@ FIELD_T = {'self._next': None, 'self._assoc_len': 'int', 'self._msg_len': 'int',
 def NEXT_MOD(d, value):
     """... plus self._next, whose value after the call is the given list of names (= the ensures clause `next`, which is what is proved)"""
     d = dict(d)
-    d['self._next'] = ('const', list(value))
+    d['self._next'] = 'list(%s)' % ','.join('const:%r' % x for x in value)
     return d
 
 
@@ -235,9 +235,10 @@ def registry(nxt='all', cfg='s1', shape=1, upd='run', data='bytes', cfg2=None):
                               'kept': 'self._assoc_len == old(self._assoc_len) and self._msg_len == old(self._msg_len) and self._mac_status == old(self._mac_status)',
                               **INV},
                      modifies=NEXT_MOD(frame(['self._cumul_assoc_len'] + ([] if parked else ['self._cache', 'self._t', 'self._mac.g_fed']), parked, True), ALL),
-                     inline=[C + '._update'] if parked else [], opaque=OPQ))
+                     returns='self', inline=[C + '._update'] if parked else [], opaque=OPQ))
     # ------------------------------------------------------------------------------------------------ encrypt / decrypt (C01, C02, C09, C10, C11)
     aad_short = '(self._assoc_len is not None and self._cumul_assoc_len < self._assoc_len)'
+    A2, P2 = views('s2')
     for kind, arg in (('encrypt', 'plaintext'), ('decrypt', 'ciphertext')):
         too_long = '(self._msg_len is None and len(%s) >= %s)' % (arg, MAXLEN)                     # C11: 2**(8q) limit
         beyond = '(self._msg_len is not None and self._cumul_msg_len + len(%s) > self._msg_len)' % arg
@@ -259,6 +260,9 @@ def registry(nxt='all', cfg='s1', shape=1, upd='run', data='bytes', cfg2=None):
                          ensures={'next': 'self._next == (%s if old(self._msg_len) is not None else %s)' % (nxt_decl, nxt_und),
                                   'result': 'result == spec.aead2.ccm_crypt(self._key, self.nonce, old(self._cumul_msg_len), %s)' % arg,
                                   'stream': stream,
+                                  # the same in terms of the views: A is untouched, P grows by the plaintext
+                                  'aad_view': '%s == %s' % (A2, A_OLD),
+                                  'msg_view': '%s == %s + %s' % (P2, P_OLD, msg),
                                   'counts': 'self._cumul_assoc_len == old(self._cumul_assoc_len) and self._cumul_msg_len == old(self._cumul_msg_len) + len(%s)' % arg,
                                   'lens': 'self._assoc_len == (old(self._assoc_len) if old(self._assoc_len) is not None else old(self._cumul_assoc_len)) and '
                                           'self._msg_len == (old(self._msg_len) if old(self._msg_len) is not None else len(%s))' % arg,
@@ -266,7 +270,7 @@ def registry(nxt='all', cfg='s1', shape=1, upd='run', data='bytes', cfg2=None):
                          modifies=NEXT_MOD(frame(['self._assoc_len', 'self._msg_len', 'self._cumul_msg_len', 'self._mac_status',
                                                   'self._cache', 'self._t', 'self._mac.g_fed', 'self._cipher.g_pos'], parked),
                                            eval(nxt_und if cfg in ('nn', 'dn') else nxt_decl)),
-                         opaque=OPQ))
+                         result='bytes', opaque=OPQ))
     # ------------------------------------------------------------------------------------------------ _digest / digest / verify (C01, C10)
     # the tag of SP 800-38C 6.1 for the associated data and payload seen so far; refused when data is short of the declared lengths;
     # once computed, the cached tag is returned / compared and nothing changes
@@ -330,7 +334,6 @@ def registry(nxt='all', cfg='s1', shape=1, upd='run', data='bytes', cfg2=None):
     cfg = entry_cfg
     parked = cfg in PARKED
     A_OLD, P_OLD, A_IN, P_IN = entry_views
-    A2, P2 = views('s2')
     for kind, arg in (('encrypt_and_digest', 'plaintext'), ('decrypt_and_verify', 'ciphertext')):
         base = 'encrypt' if kind[0] == 'e' else 'decrypt'
         too_long = '(self._msg_len is None and len(%s) >= %s)' % (arg, MAXLEN)
@@ -352,7 +355,6 @@ def registry(nxt='all', cfg='s1', shape=1, upd='run', data='bytes', cfg2=None):
                          raises={'TypeError': ('iff', '"%s" not in self._next' % base),
                                  'ValueError': ('iff', '"%s" in self._next and (%s or %s or %s%s)' % (base, aad_short, too_long, incomplete, bad_tag))},
                          unchanged_on_raise=['TypeError'], ensures=dict(ens, **INV),
-                         lemmas={'exit': {'aad_view': '%s == %s' % (A2, A_OLD), 'msg_view': '%s == %s + %s' % (P2, P_OLD, arg if base == 'encrypt' else crypt_old)}},
                          modifies=NEXT_MOD(frame(['self._assoc_len', 'self._msg_len', 'self._cumul_msg_len', 'self._mac_status', 'self._mac_tag',
                                                   'self._cache', 'self._t', 'self._mac.g_fed', 'self._cipher.g_pos'], parked),
                                            ['digest'] if base == 'encrypt' else ['verify']),
@@ -376,5 +378,61 @@ def registry(nxt='all', cfg='s1', shape=1, upd='run', data='bytes', cfg2=None):
     return reg
 
 
+# reachable (entry configuration, _next) pairs in error-free histories
+REACH = {'all': ('s1', 'nn', 'nd', 'dn'), 'ed': ('s2',), 'dv': ('s2',), 'd': ('s2', 't1', 't2'), 'v': ('s2', 't1', 't2')}
+GUARD = {'update': 'update', 'encrypt': 'encrypt', 'decrypt': 'decrypt', 'digest': 'digest', 'verify': 'verify',
+         'encrypt_and_digest': 'encrypt', 'decrypt_and_verify': 'decrypt'}
+
+
+def _unit(prop, func, nxt='all', cfg='s1', shape=1, **kw):
+    from vf.pyunit import pyvc_unit
+    uid = 'ccm.%s.%s.%s' % (func, cfg, nxt) + ('.n%d' % shape if cfg in PARKED + ('dd',) and shape != 1 else '') + \
+          ''.join('.%s' % v for k, v in sorted(kw.items()) if k != 'cfg2')
+    return pyvc_unit(prop, uid, lambda: registry(nxt=nxt, cfg=cfg, shape=shape, **kw), [C + '.' + func])
+
+
 def units(prop, tier):
-    return []
+    q = tier == 'quick'
+    us = []
+    shapes = (1,) if q else (0, 1, 2, 3)
+    if prop == 'C01':
+        us += [_unit(prop, '_start_mac', cfg='dd', shape=n) for n in ((2,) if q else (0, 1, 2, 3))]
+        for cfg in (('s2', 'nn') if q else ('s1', 's2', 'nn', 'nd', 'dn')):
+            us += [_unit(prop, '_digest', REACH_NEXT[cfg], cfg, n) for n in (shapes if cfg in PARKED else (1,))]
+        for nxt, cfg in ((('dv', 's2'),) if q else (('all', 's1'), ('all', 'nn'), ('all', 'nd'), ('all', 'dn'), ('dv', 's2'), ('v', 's2'), ('v', 't1'), ('v', 't2'))):
+            us.append(_unit(prop, 'verify', nxt, cfg))
+        for nxt, cfg in ((('all', 's1'),) if q else (('all', 's1'), ('all', 'nn'), ('all', 'nd'), ('all', 'dn'), ('dv', 's2'))):
+            us.append(_unit(prop, 'decrypt_and_verify', nxt, cfg, cfg2='s2'))
+    elif prop == 'C02':
+        us.append(_unit(prop, '__init__', cfg='init'))
+        for nxt, cfg in ((('all', 's1'),) if q else (('all', 's1'), ('all', 'nn'), ('all', 'nd'), ('all', 'dn'), ('ed', 's2'))):
+            us.append(_unit(prop, 'encrypt_and_digest', nxt, cfg, cfg2='s2'))
+    elif prop == 'C09':
+        us.append(_unit(prop, '_update', cfg='s1'))
+        us += [_unit(prop, '_update', cfg='nn', shape=n, upd='park') for n in ((1,) if q else (0, 1, 2, 3))]
+        us.append(_unit(prop, '_pad_cache_and_update', cfg='s1'))
+        for cfg in (('s1', 'nn') if q else ('s1', 'nn', 'nd', 'dn')):
+            us += [_unit(prop, 'update', 'all', cfg, n, data='buffer') for n in (shapes if cfg in PARKED else (1,))]
+        for kind in ('encrypt', 'decrypt'):
+            for nxt, cfg in ((('all', 's1'),) if q else (('all', 's1'), ('ed' if kind == 'encrypt' else 'dv', 's2'))):
+                us.append(_unit(prop, kind, nxt, cfg, data='bytes' if q else 'buffer'))
+    elif prop == 'C10':
+        for func in ('update', 'encrypt', 'decrypt', 'digest', 'verify'):
+            for nxt in NEXTS:
+                permitted = GUARD[func] in NEXTS[nxt]
+                cfgs = REACH[nxt]
+                if not permitted:
+                    cfgs = cfgs[:1] if q else cfgs          # refusal happens before any state is read
+                elif q:
+                    cfgs = tuple(c for c in cfgs if c in ('s1', 's2', 'nn', 't2') or (c == 'dn' and func == 'encrypt'))
+                for cfg in cfgs:
+                    us += [_unit(prop, func, nxt, cfg, n) for n in (shapes if (cfg in PARKED and permitted) else (1,))]
+    elif prop == 'C11':
+        us.append(_unit(prop, '__init__', cfg='init'))
+        for kind in ('encrypt', 'decrypt'):
+            for cfg in (('nn',) if q else ('nn', 'dn', 'nd', 's1')):
+                us.append(_unit(prop, kind, 'all', cfg))
+    return us
+
+
+REACH_NEXT = {'s1': 'all', 's2': 'ed', 'nn': 'all', 'nd': 'all', 'dn': 'all', 't1': 'd', 't2': 'd'}
